@@ -361,6 +361,9 @@ type callee struct {
 	fromLit bool // a function literal of the caller itself: free identifiers are the caller's own
 	file    *ast.File
 	objs    map[types.Object]bool // objects declared inside the callee (params, results, locals)
+	// nestedDefer: the body has one defer statement inside a nested block (if tmr != nil { defer tmr.Stop() }): it is
+	// turned into the assignment of a closure to a fresh variable that is called behind the inlined body
+	nestedDefer bool
 }
 
 // inlineStmt tries to inline the (single) call that statement st consists of.
@@ -402,7 +405,7 @@ func (n *normalizer) inlineStmt(st ast.Stmt) ([]ast.Stmt, bool) {
 				}
 			}
 		}
-		return nil, false
+		return n.hoist(st)
 	}
 	if call != nil {
 		if cal := n.resolve(call); cal != nil {
@@ -870,9 +873,10 @@ func (n *normalizer) inlinableBody(c *callee) bool {
 		}
 		return true
 	})
-	if total != nDefer || nDefer > 1 {
+	if total > 1 {
 		return false
 	}
+	c.nestedDefer = total == 1 && nDefer == 0
 	if !ok {
 		return false
 	}
@@ -1047,6 +1051,23 @@ func (n *normalizer) expand(c *callee, st ast.Stmt, kind string) ([]ast.Stmt, bo
 	}
 	// body
 	body := clone(c.body, ren, n.info).(*ast.BlockStmt)
+	deferVar := ""
+	if c.nestedDefer {
+		deferVar = n.fresh("deferred")
+		out = append(out, &ast.DeclStmt{Decl: &ast.GenDecl{Tok: token.VAR, Specs: []ast.Spec{&ast.ValueSpec{
+			Names: []*ast.Ident{ast.NewIdent(deferVar)}, Type: &ast.FuncType{Params: &ast.FieldList{}}}}}})
+		astutil.Apply(body, func(cur *astutil.Cursor) bool {
+			if _, isLit := cur.Node().(*ast.FuncLit); isLit {
+				return false
+			}
+			if d, isDefer := cur.Node().(*ast.DeferStmt); isDefer {
+				cur.Replace(&ast.AssignStmt{Lhs: []ast.Expr{ast.NewIdent(deferVar)}, Tok: token.ASSIGN,
+					Rhs: []ast.Expr{&ast.FuncLit{Type: &ast.FuncType{Params: &ast.FieldList{}}, Body: &ast.BlockStmt{List: []ast.Stmt{&ast.ExprStmt{X: d.Call}}}}}})
+				return false
+			}
+			return true
+		}, nil)
+	}
 	label := n.fresh("L")
 	usedLabel := false
 	var deferred *ast.DeferStmt
@@ -1138,6 +1159,10 @@ func (n *normalizer) expand(c *callee, st ast.Stmt, kind string) ([]ast.Stmt, bo
 	}
 	if deferred != nil {
 		out = append(out, &ast.ExprStmt{X: deferred.Call})
+	}
+	if deferVar != "" {
+		out = append(out, &ast.IfStmt{Cond: &ast.BinaryExpr{X: ast.NewIdent(deferVar), Op: token.NEQ, Y: ast.NewIdent("nil")},
+			Body: &ast.BlockStmt{List: []ast.Stmt{&ast.ExprStmt{X: &ast.CallExpr{Fun: ast.NewIdent(deferVar)}}}}})
 	}
 	// the original statement with the call replaced by the results
 	resExprs := func() []ast.Expr {
